@@ -129,6 +129,14 @@ def catalogue(tk):
     out.append(("should-not-send-del", session.xml("delProperty", {"device": "DEV", "name": vec}), {}, True))
     out.append(("should-not-send-message", session.xml("message", {"device": "DEV", "message": "I am a device"}), {}, True))
     out.append(("should-not-send-ping", session.xml("pingRequest", {"uid": "1"}), {}, True))
+    # attributes outside names and values: a protocol version that is not a number, time stamps in other spellings
+    for ver in ("1.7.1", "abc", "", "v1.7", "1e999"):
+        out.append(("getProperties-odd-version", session.xml("getProperties", {"version": ver, "device": "DEV"}), {}, True))
+        out.append(("getProperties-odd-version-all-devices", session.xml("getProperties", {"version": ver}), {}, True))
+    if tk != "Light":
+        for ts in ("2026-10-02T12:00:00", "2026-10-02T12:00:00Z", "yesterday", ""):
+            a_ = {"device": "DEV", "name": vec, "timestamp": ts}
+            out.append(("valid-write-odd-timestamp", session.xml(f"new{wk}Vector", a_, [one(wk, e1, v)]), {(vec, e1): [v], "required": (vec, e1)}, True))
     out.append(("getProperties-unknown", session.xml("getProperties", {"version": "1.7", "device": "NOPE", "name": vec}), {}, True))
     out.append(("enableBLOB-unknown-device", session.xml("enableBLOB", {"device": "NOPE", "name": vec}, text="Also"), {}, True))
     out.append(("missing-device-attribute", newvec(wk, None, vec, [one(wk, e1, v)]), {}, False))
